@@ -27,6 +27,12 @@ public:
 
     void popScope();
 
+    // Close the innermost scope but keep its elements: they now belong to the enclosing scope
+    void mergeScope() {
+        assert(not limits.empty());
+        limits.pop_back();
+    }
+
     template<typename TFun>
     void popScope(TFun callback);
 
